@@ -235,3 +235,18 @@ def bool_eval(e: ast.AST, atom_value) -> bool:
     if len(ats) == 1 and ats[0][0] in ("truthy",) and ats[0][1] == unparse(e):
         return atom_value(ats[0])
     return all(fact_holds(a, atom_value) for a in ats)
+
+
+class _UnItem(ast.NodeTransformer):
+    def visit_Call(self, n):
+        self.generic_visit(n)
+        if isinstance(n.func, ast.Name) and n.func.id == "__item__" and len(n.args) == 2 and isinstance(n.args[1], ast.Constant):
+            return ast.copy_location(ast.Subscript(value=n.args[0], slice=n.args[1], ctx=ast.Load()), n)
+        return n
+
+
+def unitem(e: ast.AST) -> ast.AST:
+    """spell tuple-unpacking selections `__item__(X, k)` as the equivalent subscript `X[k]` (so `(_, e) = frexp(v)` and
+    `frexp(v)[1]` compare equal)."""
+    import copy as _copy
+    return ast.fix_missing_locations(_UnItem().visit(_copy.deepcopy(e)))
